@@ -127,12 +127,14 @@ theorem step_KPos (cfg : Cfg) (o : Op) (L : Lexer) (h : KPos L) : KPos (step cfg
   case popPending => exact h.popPendingStat
   case pendingStat => exact h.pendingStat
   case setPending b => exact h.setPendingStat b
-  case nestInc | nestDec | litBegin | litMarkEnd | payClear => exact { h with }
+  case nestInc | nestDec | litBegin | litBeginAtTok | litMarkEnd | payClear => exact { h with }
   case litCut => exact { h.addStringLiteralFromSrc (cfg := cfg) L.lit.lastEnd none with }
   case litResolve back =>
+    have h' := h.dassert (cfg := cfg) (L.lit.seen || L.lit.start == L.lit.stop)
+      "assertion failed: seen_escape || lit_start_idx == cur_lit_end_idx"
     split
-    · exact { h with }
-    · exact { h.addStringLiteralFromSrc (cfg := cfg) L.lit.lastEnd (some (L.curByte - back)) with }
+    · exact { h' with }
+    · exact { h'.addStringLiteralFromSrc (cfg := cfg) L.lit.lastEnd (some (L.curByte - back)) with }
   case litAddDecoded cs => exact { h.addStringLiteral cs with }
   case loopCheck => split <;> first | exact h | exact { h with }
   case emitEofAtCursor =>
